@@ -27,9 +27,10 @@ am = json.load(open(o / 'meta.json')) if (o / 'meta.json').exists() else {}
 meta = dict(
     property=pid, name=name,
     summary=am.get('summary', ''), breaks=am.get('breaks', ''), needs_to_manifest=am.get('needs_to_manifest', ''), files=am.get('files', []),
+    disguise=am.get('disguise', ''),
     origin="written by an independent sub-agent that was given only the text of the property and its own scratch worktree of /repo",
     confirmed=dict(
-        how="tools/seed_confirm.sh in a scratch worktree of /repo (round a: commit d6dfac8, fix: commits A-F2; round b: commit 8d56954, A-G; round c: commit 7227517 or later, A-S; round d: commit 00d2c44, A-W): git apply patch.diff; all "
+        how="tools/seed_confirm.sh in a scratch worktree of /repo (round a: commit d6dfac8, fix: commits A-F2; round b: commit 8d56954, A-G; round c: commit 7227517 or later, A-S; round d: commit 00d2c44, A-W; round e: commit dd3a5bb, A-Z): git apply patch.diff; all "
             "__pycache__/numba caches purged; demo.py; unedited suite (pytest -q -p no:cacheprovider --timeout=900 -n 6); any failure beyond the four "
             "baseline failures re-run serially; git checkout; caches purged; demo.py",
         demo_exit_with_patch=dw, demo_exit_without_patch=dwo, suite_with_patch=suite,
